@@ -86,6 +86,23 @@ class Mxl(Stream):
                        [["piano__0", [sg.rand_rnote(rng, rest=0, cont=0, rel=0, systems="s")]]]) for c in sc]
             for c in sc:
                 c["toct"] = rng.choice([0, 0, -1]); c["coct"] = rng.choice([0, 0, 1, -1])
+            if i % 5 == 0:
+                # zero-length notes and rests (the duration table's .n): written as zero-length elements, still notes and references
+                for c in sc:
+                    for _, notes in c["parts"]:
+                        for nt in notes:
+                            if nt["kind"] != "l" and rng.random() < 0.2:
+                                nt["dur"] = F(0)
+            if i % 4 == 1:
+                # chord tones and bass tones carrying a per-note mode or accidental (their pitch ignores it)
+                for c in sc:
+                    for _, notes in c["parts"]:
+                        for nt in notes:
+                            if nt["kind"] in "cb" and rng.random() < 0.5:
+                                if rng.random() < 0.6:
+                                    nt["mode"] = rng.choice(sg.MODES)
+                                else:
+                                    nt["acc"] = rng.choice(sg.ACCS)
             return fix_relative(no_gap_continuation(sc), across_gaps=True)
 
         def in_range(sc):
